@@ -89,12 +89,12 @@ def load_all(specdir):
             raise SpecError('unit %s is like unknown unit %s' % (u['name'], u['like']))
         resolve(base, stack + (u['name'],))
         own_contract = 'contract' in u['sections']
-        own_loops = any(k.startswith('loop ') for k in u['sections'])
+        same_fn = u.get('inherit_ghosts') == 'yes'      # another instantiation/call-site variant of the SAME function body
         for k, v in base['sections'].items():
-            if own_contract and not own_loops and (k.startswith('loop ') or k.startswith('ghost ')):
-                continue     # a different function: it brings its own loop contracts (or has no loops)
-            if own_contract and own_loops and k.startswith('loop '):
-                continue     # same loop structure, own loop contracts; ghost splices it does not redefine are inherited
+            if own_contract and not same_fn and (k.startswith('loop ') or k.startswith('ghost ')):
+                continue     # a different function: it brings its own loop contracts and ghost splices (or has none)
+            if own_contract and same_fn and k.startswith('loop ') and any(x.startswith('loop ') for x in u['sections']):
+                continue     # same body, own loop contracts; ghost splices it does not redefine are inherited
             if k not in u['sections']:
                 for a, b in u.get('subst', {}).items():
                     v = v.replace(a, b)
